@@ -138,6 +138,40 @@ class SecInterp(Interp):
         return self.unroll_while(node, frame, 16)
 
 
+class EncInterp(SecInterp):
+    """Encoder.process with the section configuration scripted; process_section is the repository's own code."""
+
+    def __init__(self, repo, script, data_bits):
+        SecInterp.__init__(self, repo, 'Encoder', data_bits)
+        self.script = list(script)
+        self.k = 0
+
+    def on_load_attr(self, base, attr, node, frame):
+        from sa.patheval import ModRef
+        if isinstance(base, ModRef) and base.name == 'six':
+            return {'binary_type': ('builtin', 'bytes'), 'text_type': ('builtin', 'str'), 'PY3': True, 'PY2': False}.get(attr, self.NOT_HANDLED)
+        if isinstance(base, Obj) and base.cls == 'Encoder' and attr == 'section_configurer':
+            return Obj('SectionConfigurer', {})
+        return self.NOT_HANDLED
+
+    def on_call(self, text, callee, args, kwargs, node, frame):
+        if text == 'self.section_configurer.configure_section_with_values':
+            if self.k >= len(self.script):
+                raise Raise('ScriptExhausted', node, self.where(node, frame))
+            sec = self.script[self.k]
+            self.k += 1
+            self.event('configure', args[1], args[2])
+            return sec
+        if text == 'get_bit_writer':
+            return PosIO(0)
+        if text == 'BufrMessage':
+            return Obj('BufrMessage', {})
+        if text == 'bufr_message.wire':
+            self.event('wire')
+            return None
+        return SecInterp.on_call(self, text, callee, args, kwargs, node, frame)
+
+
 def message(edition):
     return Obj('BufrMessage', {'edition': Obj('SectionParameter', {'value': edition, 'name': 'edition', 'nbits': 8})})
 
@@ -227,55 +261,60 @@ def rule_r1(repo):
                                 [tuple(s[1:]) for s in sets], total // 8, start + off, start, off),
                             witness={'lead_parameter': lead, 'edition': edition, 'data_bits': k})
                 # the parameter value is updated too
-    # total length in Encoder.process: structural (the function needs JSON input, so it is not folded)
+    # total length in Encoder.process: folded with scripted section layouts (section 2 absent)
     fi = repo.own_method('Encoder', 'process')
-    calls = [n for n in ast.walk(fi.node) if isinstance(n, ast.Call) and norm(n.func) == 'bit_writer.set_uint']
-    rr.instance('Encoder.process: total length back-patch (%d set_uint call)' % len(calls))
-    if len(calls) != 1:
-        raise AnalysisError('Encoder.process: expected one bit_writer.set_uint call, found %d' % len(calls))
-    c = calls[0]
-    aliases = {}
-    latest = {}
-    for n in ast.walk(fi.node):
-        if isinstance(n, ast.Assign) and len(n.targets) == 1 and isinstance(n.targets[0], ast.Name):
-            # the assignment that reaches the call: the last one textually before it
-            if n.lineno < c.lineno and n.lineno >= latest.get(n.targets[0].id, 0):
-                latest[n.targets[0].id] = n.lineno
-                aliases[n.targets[0].id] = [norm(n.value)]
+    for edition in (3, 4):
+        for k in (0, 5):
+            for mode, declared_kind in (('recompute', 'junk'), ('honour', 'zero'), ('honour', 'exact'), ('honour', 'short'), ('honour', 'long')):
+                sizes = [64, padded_size(edition, 40), padded_size(edition, 32), padded_size(edition, 32 + k), 32]
+                total = sum(sizes) // 8
+                declared = {'junk': 12345, 'zero': 0, 'exact': total, 'short': total - 2, 'long': total + 3}[declared_kind]
 
-    def expand(t):
-        for _ in range(4):
-            for a, vs in aliases.items():
-                if len(vs) == 1 and t.startswith(a + '.') or (len(vs) == 1 and t == a):
-                    t = vs[0] + t[len(a):]
-        return t
-    a = [norm(x) for x in c.args]
-    ok = len(a) == 3
-    if ok:
-        v, w, pos = a
-        pv = expand(v)
-        pw = expand(w)
-        ok = pv.endswith('.value') and pw.endswith('.nbits') and pv[:-6] == pw[:-6]
-        if ok:
-            P = pv[:-6]                   # e.g. bufr_message.length
-            pname = P.split('.')[-1]
-            ok = ("get_parameter_offset('%s')" % pname) in pos and 'get_metadata(BITPOS_START)' in pos
-            if ok:
-                # the section whose start is used must be the parameter's own section
-                secs = set()
-                for n in ast.walk(c.args[2]):
-                    if isinstance(n, ast.Call) and isinstance(n.func, ast.Attribute) and n.func.attr in ('get_metadata', 'get_parameter_offset'):
-                        secs.add(expand(norm(n.func.value)))
-                ok = secs == {P + '.parent'}
-    if not ok:
-        rr.fail('Encoder.process:backpatch', '%s:%d' % (fi.module.relpath, c.lineno),
-                'total length is patched with set_uint(%s); expected P.value, P.nbits, P.parent start + P.parent.get_parameter_offset(name of P)' % ', '.join(a))
-    # the value patched is the number of octets written
-    assigned = [norm(n.value) for n in ast.walk(fi.node) if isinstance(n, ast.Assign) and any(norm(t) == 'bufr_message.length.value' for t in n.targets)]
-    nb = aliases.get('nbytes_write', [])
-    rr.instance('Encoder.process: length.value := octets written (%s)' % assigned)
-    if assigned != ['nbytes_write'] or nb not in (['bit_writer.get_pos() // NBITS_PER_BYTE'], ['bit_writer.get_pos() // 8']):
-        rr.fail('Encoder.process:length-value', fi.where, 'the total length is set from %s with nbytes_write = %s; expected the writer position in octets' % (assigned, nb))
+                def script():
+                    s0 = SectionModel([param('start_signature', 32, 'bytes', value=b'BUFR'), param('length', 24, value=declared, as_property=True),
+                                       param('edition', 8, value=edition, as_property=True)], {'index': 0})
+                    s1 = SectionModel([param('section_length', 24, value=0), param('x', 16, value=1)], {'index': 1})
+                    s3 = SectionModel([param('section_length', 24, value=0), param('y', 8, value=1)], {'index': 3})
+                    s4 = SectionModel([param('section_length', 24, value=0), param('reserved', 8, value=0), param('template_data', 0, 'template_data', value=Sym('TD'))], {'index': 4})
+                    s5 = SectionModel([param('stop_signature', 32, 'bytes', value=b'7777')], {'index': 5, 'end_of_message': True})
+                    for sm in (s0, s1, s3, s4):
+                        sm.meta.setdefault('end_of_message', False)
+                    return [s0, s1, None, s3, s4, s5]
+                it = EncInterp(repo, script(), k)
+                res = it.run_function(fi, lambda: {'self': Obj('Encoder', {'ignore_declared_length': mode == 'recompute', 'overrides': {}}),
+                                                   's': ['D0', 'D1', 'D3', 'D4', 'D5'], 'file_path': 'f', 'wire_template_data': False}, self_class='Encoder')
+                inst = 'Encoder.process: edition %d, %d data bits, %s, declared total %s' % (edition, k, mode, declared_kind)
+                rr.instance(inst)
+                if len(res) != 1:
+                    rr.fail('Encoder.process:paths', fi.where, '%s: %s' % (inst, [r.describe() for r in res]))
+                    continue
+                r = res[0]
+                should_raise = mode == 'honour' and declared_kind in ('short', 'long')
+                if should_raise:
+                    if r.ok or not it_is_lib_error(repo, r.exc.cls):
+                        rr.fail('Encoder.process:total-mismatch', fi.where, '%s: a declared total length of %d octets for a message of %d octets gives %s (expected PyBufrKitError)' % (
+                            inst, declared, total, r.describe()))
+                    continue
+                if not r.ok:
+                    rr.fail('Encoder.process:raises', fi.where, '%s: raises %s' % (inst, r.exc.cls))
+                    continue
+                conf = [(e[1], e[2]) for e in r.events if e[0] == 'configure']
+                if conf != [(0, 'D0'), (1, 'D1'), (2, 'D3'), (3, 'D3'), (4, 'D4'), (5, 'D5')]:
+                    rr.fail('Encoder.process:input-index', fi.where, '%s: sections are configured with input items %s; an absent optional section must not consume an item '
+                            'of the input' % (inst, conf))
+                sets = [e for e in r.events if e[0] == 'set' and e[3] == 32]
+                patched = mode == 'recompute' or declared_kind == 'zero'
+                if patched:
+                    if len(sets) != 1 or sets[0][1] != total or sets[0][2] != 24:
+                        rr.fail('Encoder.process:backpatch', fi.where, '%s: the total length is patched as %s; expected value %d, width 24 at bit 32 (start of section 0 + offset of '
+                                'length)' % (inst, [tuple(x[1:]) for x in r.events if x[0] == 'set'], total))
+                    lv = r.value.fields.get('length') if isinstance(r.value, Obj) else None
+                    if not (isinstance(lv, Obj) and lv.fields.get('value') == total):
+                        rr.fail('Encoder.process:length-value', fi.where, '%s: the message object reports length %r (expected %d)' % (inst, lv.fields.get('value') if isinstance(lv, Obj) else lv, total))
+                elif sets:
+                    rr.fail('Encoder.process:backpatch-honour', fi.where, '%s: a correct declared total length is overwritten' % inst)
+                if repr(r.value.fields.get('serialized_bytes')) != 'BYTES':
+                    rr.fail('Encoder.process:bytes', fi.where, '%s: serialized_bytes is %r, not the writer\'s bytes' % (inst, r.value.fields.get('serialized_bytes')))
     rr.require_floor(10)
     return rr
 
@@ -487,24 +526,8 @@ def rule_r5(repo):
                     rr.fail('SectionConfigurer.configure_section', fi.where,
                             'optional=%s, presence flag=%s: returns %s (a section is absent exactly when it is optional and the flag is false)' % (
                                 optional, present, 'None' if got_none else 'a section'))
-    for cname in ('Decoder', 'Encoder'):
-        f2 = repo.own_method(cname, 'process')
-        loops = [n for n in ast.walk(f2.node) if isinstance(n, ast.While)]
-        ok = False
-        for lp in loops:
-            for i, s in enumerate(lp.body):
-                if isinstance(s, ast.If) and norm(s.test) == 'section is None' and any(isinstance(x, ast.Continue) for x in s.body):
-                    # must precede the processing call
-                    later = [x for x in lp.body[i + 1:] for y in ast.walk(x) if isinstance(y, ast.Call) and norm(y.func) == 'self.process_section']
-                    earlier = [x for x in lp.body[:i] for y in ast.walk(x) if isinstance(y, ast.Call) and norm(y.func) == 'self.process_section']
-                    ok = bool(later) and not earlier
-                    if cname == 'Encoder':
-                        ok = ok and any('index_offset' in norm(x) for x in s.body)
-        rr.instance('%s.process skips a None section before processing' % cname)
-        if not ok:
-            rr.fail('%s.process:skip-absent' % cname, f2.where, 'the section loop does not `continue` on an absent optional section before processing it%s' % (
-                ' (and shift its input index)' if cname == 'Encoder' else ''))
-    rr.require_floor(6)
+    # (that both coders skip an absent section before processing it -- the encoder without consuming an input item -- is folded in R1 / R4)
+    rr.require_floor(4)
     return rr
 
 
